@@ -2,17 +2,8 @@
 from ekw import c01_real, ctrl_check
 
 PROPERTY = "C01"
-LEVEL_TEXT = ("Lean theorems over the small-step system controller x abstract executors (Model/Ctrl.lean, extended system Model/Sched.lean): in every reachable state "
-              "every stored copy and every delivered output equals the sequential denotation `den` (c01_store_sound, c01_outputs_sound); EVERY REQUESTED DATASET IS "
-              "DELIVERED: from every reachable state, for any job, feasible cluster, admissible heuristic choice, event order and interleaving, it is inevitable - on "
-              "every maximal execution, after finitely many steps - that run() returns with every requested output delivered with the sequential value and every task "
-              "run exactly once (c01_delivers, c01_run_returns_outputs; termination is a theorem: well-founded measure + deadlock freedom, Lemmas/SchedTerm*.lean); "
-              "two finished runs on different clusters/placements/event orders agree (c01_independent); c01_outputs_sequential / c01_return_complete / "
-              "c01_run_delivers as before. Props/C01.lean exhibits reachable finished states with non-empty requested sets (one host; two hosts with a transfer, a "
-              "late transfer notice and purges). Tied to the real controller by per-phase state correspondence (SimBridge) and a sequential-interpreter oracle, incl. "
-              "the results a gateway-driven run reports through the real Reporter; the path from the controller's commands to the execution of a task (runner "
-              "argument binding, output publication, shm, data server, zmq) is not proved but sampled end to end on real local clusters. ")
-LEVEL_NOTE = ("modelled, not verified: scheduler/api.py initialize/plan, scheduler/assign.py build_assignment + the pops of _assignment_heuristic, controller/act.py act/flush_queues, controller/notify.py notify/consider_*, impl.run loop skeleton (Model/Ctrl.lean, one Lean function per Python function). Abstracted as an oracle argument validated for admissibility by the model and supplied from what the real run chose: which (idle worker, computable task) pairs the distance/overhead heuristics and host->component migration pick per round, and which `available` host is the transmit source; theorems quantify over all admissible choices. Executors are abstract (Env; SimBridge mirrors it): a dispatched task runs once its inputs are on its host and publishes outputs in index order; transmit/fetch read the source store; purge is immediate. Hypothesis WF: tasks topologically numbered, inputs duplicate-free, >=1 output per task, requested outputs exist, worker ids distinct (the generator guarantees it). Fixed on the way: completion of a multi-output task was inferred from the notice of its LAST output, so under any-order delivery a run could spin, wait forever or exit early (fix commit d9c96b4, finding C01-last-output-overtakes now status fixed; corpus witnesses kept as regression inputs). Task values are uninterpreted terms: argument binding inside a task is C10, byte-faithful copies are C07, real (cloud)pickle is sampled only. Sampled, not modelled (harness/ekw/c01_real.py, 10 runs quick / 48 thorough, one per family: dense multi-host, GPU incl. 11-13 workers on one host, custom serdes, ndarray values, many positional arguments, replicated ndarray outputs, …): executor/runner/runner.py run (statics, positional and keyword edges, keyword edges into defaulted parameters, generator outputs in declaration order), runner/memory.py, runner/entrypoint.py, executor/executor.py, data_server.py and the zmq/shm transport, by end-to-end runs of the real controller.impl.run + Bridge + forked executors on 1-3 hosts x 1-3 workers (and 1 host x 11-13 GPU workers) against a sequential interpreter. Since the audit response: commands are interpreted with what they carry (TaskSequence.publish: a body publishes only the outputs named; the controller names all), termination is proved (Lemmas/SchedTerm*.lean; hypotheses WF, WFC, Feasible), the transmit source the real run took is additionally compared with the model's scan over the recorded iteration order of ds2host (another `available` host than the first is tolerated and counted).")
+LEVEL_TEXT = ("Lean theorems over the small-step system controller x abstract executors (Model/Ctrl.lean, extended system Model/Sched.lean): in every reachable state every stored copy and every delivered output equals the sequential denotation `den` (c01_store_sound, c01_outputs_sound); EVERY REQUESTED DATASET IS DELIVERED: from every reachable state, for any job, feasible cluster, admissible heuristic choice, event order and interleaving, it is inevitable - on every maximal execution, after finitely many steps - that run() returns with every requested output delivered with the sequential value and every task run exactly once (c01_delivers, c01_run_returns_outputs; termination is a theorem: well-founded measure + deadlock freedom, Lemmas/SchedTerm*.lean); the same with no free hypothesis left - component map := the one C16's precompute yields for the job (WFC proved for it), WF and Feasible as Bool checks that the drivers evaluate on every replayed input (c01_delivers_checked); two finished runs on different clusters/placements/event orders agree (c01_independent); c01_outputs_sequential / c01_return_complete / c01_run_delivers as before. Props/C01.lean exhibits reachable finished states with non-empty requested sets (one host; two hosts with a transfer, a late transfer notice and purges). Tied to the real controller by per-phase state correspondence (SimBridge) and a sequential-interpreter oracle, incl. the results a gateway-driven run reports through the real Reporter; the path from the controller's commands to the execution of a task (runner argument binding, output publication, shm, data server, zmq) is not proved but sampled end to end on real local clusters. ")
+LEVEL_NOTE = ("modelled, not verified: scheduler/api.py initialize/plan, scheduler/assign.py build_assignment + the pops of _assignment_heuristic, controller/act.py act/flush_queues, controller/notify.py notify/consider_*, impl.run loop skeleton (Model/Ctrl.lean, one Lean function per Python function). Abstracted as an oracle argument validated for admissibility by the model and supplied from what the real run chose: which (idle worker, computable task) pairs the distance/overhead heuristics and host->component migration pick per round, and which `available` host is the transmit source; theorems quantify over all admissible choices. Executors are abstract (Env; SimBridge mirrors it): a dispatched task runs once its inputs are on its host and publishes outputs in index order; transmit/fetch read the source store; purge is immediate. Hypothesis WF: tasks topologically numbered, inputs duplicate-free, >=1 output per task, requested outputs exist, worker ids distinct; WF, WFC (for the component map the real precompute/initialize produced) and Feasible are DECIDED by the Lean drivers on every replayed input (wfCheck/wfcCheck/feasCheck with soundness lemmas, Lemmas/CtrlWFCheck.lean; an input outside them is reported as a harness failure), not assumed of the generator. Fixed on the way: completion of a multi-output task was inferred from the notice of its LAST output, so under any-order delivery a run could spin, wait forever or exit early (fix commit d9c96b4, finding C01-last-output-overtakes now status fixed; corpus witnesses kept as regression inputs). Task values are uninterpreted terms: argument binding inside a task is C10, byte-faithful copies are C07, real (cloud)pickle is sampled only. Sampled, not modelled (harness/ekw/c01_real.py, 10 runs quick / 48 thorough, one per family: dense multi-host, GPU incl. 11-13 workers on one host, custom serdes, ndarray values, many positional arguments, replicated ndarray outputs, …): executor/runner/runner.py run (statics, positional and keyword edges, keyword edges into defaulted parameters, generator outputs in declaration order), runner/memory.py, runner/entrypoint.py, executor/executor.py, data_server.py and the zmq/shm transport, by end-to-end runs of the real controller.impl.run + Bridge + forked executors on 1-3 hosts x 1-3 workers (and 1 host x 11-13 GPU workers) against a sequential interpreter. Since the audit response: commands are interpreted with what they carry (TaskSequence.publish: a body publishes only the outputs named; the controller names all), termination is proved (Lemmas/SchedTerm*.lean; hypotheses WF, WFC, Feasible), the transmit source the real run took is additionally compared with the model's scan over the recorded iteration order of ds2host (another `available` host than the first is tolerated and counted).")
 TECHNIQUE = "Lean 4 inductive system invariant (StoreSound + fetch pipeline) over a small-step transition system, with differential state correspondence against the real controller driven through SimBridge"
 LEAN_PROPS = ["EkwVerif.Props.C01"]
 LEAN_DRIVERS = ["Ctrl"]
@@ -68,3 +59,7 @@ def replay(payload):
     if "real" in payload.get("case", {}):
         return c01_real.replay(payload["case"])
     return ctrl_check.replay(payload, PROPERTY)
+
+
+def search(ctx, why):
+    ctrl_check.search(ctx, why, PROPERTY)
